@@ -246,6 +246,9 @@ func runImports(a *runArgs, prop string) error {
 	n, maxLen, repeats := 250, 14, 6
 	if a.Tier == "thorough" {
 		n, maxLen, repeats = 6000, 40, 25
+		if prop == "C15" { // every history is rebuilt `repeats` times: keep the thorough tier under half an hour
+			n, repeats = 1500, 12
+		}
 	}
 	r := rand.New(rand.NewSource(a.Seed))
 	cw := newCaseWriter(a.Out, prop, "From GV Require Import Lib.Bytes C09.Model C09.Check.", "c09case", 60, "k1_bad cases", "k1_collision cases", "dev_list cases")
